@@ -61,7 +61,8 @@ func apiState(w *World, h *HistRun) (string, any) {
 func effectView(s *Snap) map[string]any {
 	ues := map[string]any{}
 	for k, u := range s.UEs {
-		ues[k] = map[string]any{"reserved": u.Reserved, "sessions": u.Sessions, "recHash": u.RecHash, "records": u.Records}
+		ues[k] = map[string]any{"reserved": u.Reserved, "sessions": u.Sessions, "recHash": u.RecHash, "records": u.Records,
+			"ratingMode": u.RatingType, "unitCost": u.UnitCost, "requestNumbers": u.ReqNum, "notifyUri": u.NotifyUri}
 	}
 	return map[string]any{"bal": s.Bal, "ues": ues, "files": s.Files, "dbPuts": s.DBPuts}
 }
